@@ -122,9 +122,12 @@ package net
 //@   pure
 //@ functype Closer(err error)
 //@   pure
+// sclosed: Close has been called on the stream (a writer or reader blocked on it is released).
+//@ ghostfield sclosed bool
 //@ interface (s Stream) Close() (err error)
 //@   trusted
-//@   pure
+//@   modifies s.sclosed
+//@   ensures s.sclosed
 
 // The consumer goroutine started by AddHandler calls the consumer and nothing else: in particular
 // not the close callback, which runs exactly once, under the table lock, when the handler leaves
@@ -214,6 +217,10 @@ package net
 //@   modifies everything
 //@   ensures !e.handlersMutex.lockw
 //@   ensures[C17,C11] forall i int {at_unlock(e.handlers[i])} :: 0 <= i && i < at_lock(len(e.handlers)) ==> at_unlock(e.handlers[i]) == nil && (at_lock(e.handlers[i]) != nil ==> at_lock(e.handlers[i]).hclosed == 1 && at_lock(e.handlers[i]).consumer.chclosed)
+// no deadlock with dispatch: dispatch writes its "consumer blocked" error reply while it holds the
+// table lock, and that write can block for as long as the peer likes; closing the stream is what
+// releases it, so the stream is closed BEFORE this function waits for the table lock.
+//@   call Lock#1: assert[C17,C11] e.stream.sclosed
 //@   loop 1:
 //@     invariant e.handlersMutex.lockw && e.handlers == at_lock(e.handlers)
 //@     invariant forall k int {e.handlers[k]} :: 0 <= k && k <= rangeindex && k < len(e.handlers) ==> e.handlers[k] == nil && (at_lock(e.handlers[k]) != nil ==> at_lock(e.handlers[k]).hclosed == 1 && at_lock(e.handlers[k]).consumer.chclosed)
